@@ -67,7 +67,7 @@ def fam_order(rnd, n):
             blocks.append(blk([rnd.choice([1, 2, 3]) for _ in range(ns)], conc=rnd.choice([1, 2, 3]), tol=rnd.choice([0, 0, 1, -1])))
         sh = shape(blocks, retries=rnd.choice([0, 1, 2]))
         mode = "quiet" if i % 3 == 0 else "free"
-        res.append(scn(sh, mode, rand_outcomes(rnd, sh, 0.12, 0.08), tag="order", latmax=rnd.choice([50, 300, 1500])))
+        res.append(scn(sh, mode, rand_outcomes(rnd, sh, 0.12, 0.08), tag="order", latmax=rnd.choice([50, 300, 1500]), cancelstart=(i % 7 == 3)))
     return res
 
 
@@ -121,6 +121,10 @@ def fam_retry(rnd, n, overrun=True, checks=True):
             res.append(scn(sh, "free", {"b1.s1.a1": s}, tag="retry-overrun", timeoutms=60, waitms=6000))
         sh = shape([blk([1], g={"pre": 1})], cretries=1)
         res.append(scn(sh, "free", {"b1.pre.a1": ["overrun", "ok"]}, tag="retry-overrun-check", timeoutms=60, waitms=6000))
+        # an overrunning call that returns late, while the next attempt is in flight
+        for r, s2, lat in [(1, ["lateok", "ok"], [0, 60000]), (2, ["lateok", "tr", "ok"], [0, 50000, 100]), (1, ["lateok", "perm"], [0, 60000])]:
+            sh = shape([blk([2])], retries=r)
+            res.append(scn(sh, "free", {"b1.s1.a1": s2}, lat={"b1.s1.a1": lat}, tag="retry-late", timeoutms=100, waitms=6000))
     return res
 
 
@@ -152,7 +156,7 @@ def fam_gates(rnd, n):
         sh = shape(blocks, pg=pg)
         if rnd.random() < 0.15:
             out["b1.s1.a1"] = ["perm"]
-        res.append(scn(sh, "free", out, tag="gates", latmax=rnd.choice([100, 800]), contdelay=rnd.choice([100, 300])))
+        res.append(scn(sh, "free", out, tag="gates", latmax=rnd.choice([100, 800]), contdelay=rnd.choice([100, 300]), cancelstart=(i % 6 == 5)))
     return res
 
 
@@ -369,4 +373,47 @@ def fam_kill(rnd, n):
         nw = 12 + 10 * sum(len(b["seqs"]) for b in base["shape"]["blocks"])
         res.append({"kind": "kill", "shape": base["shape"], "mode": "free", "out": base["out"], "killat": rnd.randint(1, nw), "latmax": 1500,
                     "contdelay": 300, "fn": True, "tag": "kill-" + base["tag"], "waitms": 6000})
+    return res
+
+
+def fam_crash_conc(rnd, n):
+    """Crash points of blocks with more sequences than their concurrency allows (the bound must hold in the resuming process too)."""
+    res = []
+    for i in range(n):
+        ns = rnd.choice([3, 4, 5])
+        conc = rnd.choice([1, 2, 2])
+        sh = shape([blk([rnd.choice([1, 2]) for _ in range(ns)], conc, rnd.choice([0, 1, -1])), blk([1, 1], conc=2)])
+        out = {}
+        if rnd.random() < 0.4:
+            out["b1.s%d.a1" % rnd.randint(1, ns)] = ["perm"]
+        lat = {a: [rnd.choice([200, 1500, 4000])] for a in seq_actions(sh)}
+        res.append(scn(sh, "free", out, lat=lat, crash="sample", crashmax=12, fn=True, tag="crash-conc2", waitms=6000))
+    return res
+
+
+def fam_crash_deferred(rnd, n):
+    """Crash points around deferred checks that pass or fail, at plan and block level; the answer of a check may
+    change across the restart (a deferred group that has run is not run again)."""
+    res = []
+    for i in range(n):
+        pg = {"deferred": rnd.choice([1, 2])}
+        bg = {"deferred": 1}
+        if rnd.random() < 0.4:
+            pg["post"] = 1
+        if rnd.random() < 0.4:
+            bg["post"] = 1
+        sh = shape([blk([1, 1], 1, 0, g=bg), blk([1], g=rnd.choice([{}, {"deferred": 1}]))], pg=pg)
+        out = {}
+        x = rnd.random()
+        if x < 0.35:
+            out["p.deferred.a1"] = ["perm"]
+        elif x < 0.7:
+            out["b1.deferred.a1"] = ["perm"]
+        elif x < 0.8:
+            out["b1.s2.a1"] = ["perm"]
+        o2 = dict(out)
+        for a in list(out):
+            if "deferred" in a and rnd.random() < 0.7:
+                o2[a] = ["ok"]
+        res.append(scn(sh, "free", out, out2=o2, crash="all", fn=False, tag="crash-deferred", latmax=100, waitms=5000))
     return res
